@@ -71,6 +71,10 @@ pub struct ConnCase {
     /// C04: (offset, new limit), ascending offsets: the owner calls set_payload_max_size(new limit)
     /// when exactly `offset` bytes have been delivered (every schedule is cut there)
     pub relimit: Vec<(usize, usize)>,
+    /// C12: low descriptor numbers are occupied at the start and freed after the first read that
+    /// carried descriptors, so later descriptors have LOWER numbers than earlier ones (arrival
+    /// order is not numeric order); such a run holds the descriptor table exclusively
+    pub low_fd_later: bool,
 }
 
 impl ConnCase {
@@ -87,6 +91,7 @@ impl ConnCase {
             use_fd0: false,
             real_socket: false,
             relimit: vec![],
+            low_fd_later: false,
         }
     }
     pub fn eff_limit(&self) -> usize {
@@ -130,6 +135,7 @@ impl ConnCase {
             ("use_fd0", J::Bool(self.use_fd0)),
             ("real_socket", J::Bool(self.real_socket)),
             ("relimit", J::Arr(self.relimit.iter().map(|(p, l)| J::Arr(vec![json::u(*p), json::u(*l)])).collect())),
+            ("low_fd_later", J::Bool(self.low_fd_later)),
         ])
     }
     pub fn from_json(j: &J) -> Result<Self, String> {
@@ -164,6 +170,7 @@ impl ConnCase {
                         .collect()
                 })
                 .unwrap_or_default(),
+            low_fd_later: j.get("low_fd_later").and_then(|x| x.bool()).unwrap_or(false),
         })
     }
 
